@@ -17,7 +17,7 @@ pub enum WOp {
     /// generate from data in up to three pieces, finalize with option bits `o`
     Gen { v: u8, data: DataDesc, cut: u32, o: u8 },
     /// parse the hex form of the hash with binary form `raw`, after the given text edits
-    Parse { v: u8, raw: Vec<u8>, edits: Vec<(u16, u8)>, mode: u8, lower: bool, strip: bool },
+    Parse { v: u8, raw: Vec<u8>, edits: Vec<(u16, u8)>, mode: u8, lower: bool, strip: bool, resize: i8 },
     /// binary round trip + accessors
     Binary { v: u8, raw: Vec<u8>, len_delta: i8 },
     /// store_into_str_bytes / store_into_bytes into a buffer of (required + delta) bytes, Display
@@ -92,7 +92,7 @@ pub fn draw_op(r: &mut Rng) -> WOp {
                     edits.push((r.below(140) as u16, *r.pick(&[b'g', b'G', b'@', b'/', b':', b'`', b'f', b'F', b'0', b'9', b'a', b'A', 0x80, 0xff, b' ', b'T', b't', b'1', b'2'])));
                 }
             }
-            WOp::Parse { v, raw: draw_raw(r), edits, mode: r.below(3) as u8, lower: r.chance(1, 3), strip: r.chance(1, 3) }
+            WOp::Parse { v, raw: draw_raw(r), edits, mode: r.below(3) as u8, lower: r.chance(1, 3), strip: r.chance(1, 3), resize: if r.chance(1, 4) { *r.pick(&[-3i8, -2, -1, 1, 2, 3, -128, 100]) } else { 0 } }
         }
         45..=54 => WOp::Binary { v, raw: draw_raw(r), len_delta: *r.pick(&[0i8, 0, 0, 0, -1, 1, -5, 3]) },
         55..=69 => WOp::Format { v, raw: draw_raw(r), delta: *r.pick(&[0i8, 0, 0, 1, -1, 7, -2, 64, -64]), prefix: r.chance(1, 2) },
@@ -172,7 +172,7 @@ fn exec<K: Kind>(op: &WOp) -> String {
             g.update(&d[c..]);
             format!("gen {} len={:?}", render(&g.finalize_with_options(&options(*o))), g.processed_len())
         }
-        WOp::Parse { raw, edits, mode, lower, strip, .. } => {
+        WOp::Parse { raw, edits, mode, lower, strip, resize, .. } => {
             let Some(h) = hash_of::<K>(raw) else { return "parse: raw rejected".into() };
             let mut s = h.to_string().into_bytes();
             if *lower {
@@ -187,6 +187,14 @@ fn exec<K: Kind>(op: &WOp) -> String {
                 if !s.is_empty() {
                     let i = *p as usize % s.len();
                     s[i] = *b;
+                }
+            }
+            if *resize < 0 {
+                let keep = s.len().saturating_sub((-(*resize as i32)) as usize);
+                s.truncate(keep);
+            } else {
+                for _ in 0..*resize {
+                    s.push(b'0');
                 }
             }
             let mode = match mode {
@@ -355,8 +363,8 @@ pub fn cells_of(op: &WOp) -> u8 {
 pub fn op_json(op: &WOp) -> Value {
     match op {
         WOp::Gen { v, data, cut, o } => json!({"op":"gen","v":v,"data":data.to_json(),"cut":cut,"o":o}),
-        WOp::Parse { v, raw, edits, mode, lower, strip } => {
-            json!({"op":"parse","v":v,"raw":hex(raw),"edits":edits.iter().map(|(p,b)| vec![*p as u64,*b as u64]).collect::<Vec<_>>(),"mode":mode,"lower":lower,"strip":strip})
+        WOp::Parse { v, raw, edits, mode, lower, strip, resize } => {
+            json!({"op":"parse","v":v,"raw":hex(raw),"edits":edits.iter().map(|(p,b)| vec![*p as u64,*b as u64]).collect::<Vec<_>>(),"mode":mode,"lower":lower,"strip":strip,"resize":resize})
         }
         WOp::Binary { v, raw, len_delta } => json!({"op":"binary","v":v,"raw":hex(raw),"len_delta":len_delta}),
         WOp::Format { v, raw, delta, prefix } => json!({"op":"format","v":v,"raw":hex(raw),"delta":delta,"prefix":prefix}),
@@ -378,6 +386,7 @@ pub fn op_from(j: &Value) -> Result<WOp, String> {
             mode: j["mode"].as_u64().ok_or("mode")? as u8,
             lower: j["lower"].as_bool().ok_or("lower")?,
             strip: j["strip"].as_bool().ok_or("strip")?,
+            resize: j["resize"].as_i64().unwrap_or(0) as i8,
         },
         "binary" => WOp::Binary { v, raw: raw("raw")?, len_delta: j["len_delta"].as_i64().ok_or("len_delta")? as i8 },
         "format" => WOp::Format { v, raw: raw("raw")?, delta: j["delta"].as_i64().ok_or("delta")? as i8, prefix: j["prefix"].as_bool().ok_or("prefix")? },
@@ -421,14 +430,17 @@ pub fn shrink_op(op: &WOp) -> Vec<WOp> {
                 }
             }
         }
-        WOp::Parse { v, raw, edits, mode, lower, strip } => {
+        WOp::Parse { v, raw, edits, mode, lower, strip, resize } => {
             for i in 0..edits.len() {
                 let mut e = edits.clone();
                 e.remove(i);
-                out.push(WOp::Parse { v: *v, raw: raw.clone(), edits: e, mode: *mode, lower: *lower, strip: *strip });
+                out.push(WOp::Parse { v: *v, raw: raw.clone(), edits: e, mode: *mode, lower: *lower, strip: *strip, resize: *resize });
             }
             if raw.iter().any(|&b| b != 0) {
-                out.push(WOp::Parse { v: *v, raw: vec![0; 69], edits: edits.clone(), mode: *mode, lower: *lower, strip: *strip });
+                out.push(WOp::Parse { v: *v, raw: vec![0; 69], edits: edits.clone(), mode: *mode, lower: *lower, strip: *strip, resize: *resize });
+            }
+            if *resize != 0 {
+                out.push(WOp::Parse { v: *v, raw: raw.clone(), edits: edits.clone(), mode: *mode, lower: *lower, strip: *strip, resize: 0 });
             }
         }
         WOp::Format { v, raw, delta, prefix } => {
